@@ -1,0 +1,53 @@
+//go:build verif
+
+// Contracts of this package for the deductive verifier in /verif (vcgo).
+// Comment-only plus ghost lemma drivers; compiled only with -tags verif.
+
+package upstream
+
+// ---------------------------------------------------------------------------
+// loadBalancer (C15, C05)
+
+//@ pure lbWF(lb *loadBalancer) bool = (len(lb.upstreams) == 0 && lb.nextIndex == 0) || (0 <= lb.nextIndex && lb.nextIndex < len(lb.upstreams))
+//@ pure lbMember(lb *loadBalancer, u Upstream) bool = exists j int :: 0 <= j && j < len(lb.upstreams) && lb.upstreams[j] == u
+
+//@ contract (*loadBalancer).Add
+//@   serves C15 C05
+//@   requires[wf] lbWF(lb)
+//@   modifies lb.upstreams, elems(lb.upstreams)
+//@   ensures[len] len(lb.upstreams) == old(len(lb.upstreams)) + 1
+//@   ensures[last] lb.upstreams[old(len(lb.upstreams))] == u
+//@   ensures[keep] forall j int :: 0 <= j && j < old(len(lb.upstreams)) ==> lb.upstreams[j] == old(lb.upstreams[j])
+//@   ensures[wf] lbWF(lb)
+//@   ensures[arr] arr(lb.upstreams) == old(arr(lb.upstreams)) || fresh(lb.upstreams)
+
+//@ contract (*loadBalancer).Remove
+//@   serves C15 C05
+//@   requires[wf] lbWF(lb)
+//@   modifies lb.upstreams, lb.nextIndex, elems(lb.upstreams)
+//@   ensures[removed] old(lbMember(lb, u)) ==> len(lb.upstreams) == old(len(lb.upstreams)) - 1
+//@      && (exists i int :: 0 <= i && i < old(len(lb.upstreams)) && old(lb.upstreams[i]) == u
+//@            && (forall j int :: 0 <= j && j < i ==> lb.upstreams[j] == old(lb.upstreams[j]))
+//@            && (forall j int :: i <= j && j < len(lb.upstreams) ==> lb.upstreams[j] == old(lb.upstreams[j+1])))
+//@   ensures[unknown] !old(lbMember(lb, u)) ==> len(lb.upstreams) == old(len(lb.upstreams)) && lb.nextIndex == old(lb.nextIndex)
+//@      && (forall j int :: 0 <= j && j < len(lb.upstreams) ==> lb.upstreams[j] == old(lb.upstreams[j]))
+//@   ensures[result] result == (len(lb.upstreams) == 0)
+//@   ensures[wf] lbWF(lb) || len(lb.upstreams) == 0
+//@   ensures[arr] arr(lb.upstreams) == old(arr(lb.upstreams))
+//@   loop 1 invariant[range] 0 <= i && i <= len(lb.upstreams)
+//@   loop 1 invariant[scan] forall j int :: 0 <= j && j < i ==> lb.upstreams[j] != u
+
+//@ contract (*loadBalancer).Contains
+//@   serves C15 C05
+//@   ensures[iff] result == lbMember(lb, u)
+//@   loop 1 invariant[range] -1 <= rangeindex && rangeindex < len(lb.upstreams)
+//@   loop 1 invariant[scan] forall j int :: 0 <= j && j <= rangeindex ==> lb.upstreams[j] != u
+
+//@ contract (*loadBalancer).Next
+//@   serves C15
+//@   requires[wf] lbWF(lb)
+//@   modifies lb.nextIndex
+//@   ensures[empty] old(len(lb.upstreams)) == 0 ==> result == nil
+//@   ensures[member] old(len(lb.upstreams)) > 0 ==> result == lb.upstreams[old(lb.nextIndex)]
+//@   ensures[advance] old(len(lb.upstreams)) > 0 ==> lb.nextIndex == (old(lb.nextIndex) + 1) % len(lb.upstreams)
+//@   ensures[wf] lbWF(lb)
